@@ -167,3 +167,7 @@ void h_enf_DecoderBuffer_data_head(void) { GHOSTS(); struct DecoderBuffer b; b.d
 void h_enf_DecoderBuffer_bit_decoder_active(void) { GHOSTS(); struct DecoderBuffer b; DecoderBuffer_bit_decoder_active(&b); HARNESS_END(); }
 void h_enf_DecoderBuffer_Advance(void) { GHOSTS(); struct DecoderBuffer b; int64_t n; DecoderBuffer_Advance(&b, n); HARNESS_END(); }
 #endif
+
+#ifdef VERIF_CBMC
+void h_enf_EncoderBuffer_EncodeBytes(void) { GHOSTS(); struct EncoderBuffer *e; const void *d; size_t n; EncoderBuffer_EncodeBytes(e, d, n); HARNESS_END(); }
+#endif
